@@ -103,7 +103,14 @@ type n3Witness struct {
 	acc       util.Uint160 // hash of the verification script
 	checkData bool         // the witness is good for dataHash only
 	dataHash  [32]byte
+	// how a refusal (ok = FALSE) looks on the chain: "" HALT with FALSE; "fault": FAULT state with a truthy
+	// item left on the stack (e.g. invocation script PUSHT ABORT); "two": HALT with two truthy items;
+	// "none": HALT with an empty stack; "int0": HALT with integer 0
+	bad string
 }
+
+// n3BadModes are the refusal shapes of the fake chain.
+var n3BadModes = []string{"", "fault", "two", "none", "int0"}
 
 // ---------------------------------------------------------------- fakes of the service dependencies
 
@@ -176,7 +183,20 @@ func (f fsChain) InvokeContainedScript(tx *transaction.Transaction, _ *block.Hea
 	if w.checkData && tx.Hash() != util.Uint256(w.dataHash) {
 		ok = false // a witness signs one message
 	}
-	return &result.Invoke{State: "HALT", Stack: []stackitem.Item{stackitem.NewBool(ok)}}, nil
+	if ok {
+		return &result.Invoke{State: "HALT", Stack: []stackitem.Item{stackitem.NewBool(true)}}, nil
+	}
+	switch w.bad {
+	case "fault":
+		return &result.Invoke{State: "FAULT", FaultException: "ABORT is executed", Stack: []stackitem.Item{stackitem.NewBool(true)}}, nil
+	case "two":
+		return &result.Invoke{State: "HALT", Stack: []stackitem.Item{stackitem.NewBool(true), stackitem.NewBool(true)}}, nil
+	case "none":
+		return &result.Invoke{State: "HALT", Stack: []stackitem.Item{}}, nil
+	case "int0":
+		return &result.Invoke{State: "HALT", Stack: []stackitem.Item{stackitem.Make(0)}}, nil
+	}
+	return &result.Invoke{State: "HALT", Stack: []stackitem.Item{stackitem.NewBool(false)}}, nil
 }
 
 // Netmapper
